@@ -325,7 +325,13 @@ def step(ctx, im, marks, l, hist, n, cfg):
         for first, second, which in ((HA, HB, 'A.is_equal(B)'), (HB, HA, 'B.is_equal(A)')):
             # unknown max_range (markers only at the ends): the documented default window is L + 2 L sites; the caller
             # has to say how far the terms reach
-            kw = dict(max_range=im.cells * first.L) if im.infinite and None in (first.max_range, second.max_range) else {}
+            kw = {}
+            if im.infinite and None in (first.max_range, second.max_range):
+                # documented default for an unknown range: L + 2 * max(L, known ranges) sites; used as is when this is
+                # the window of the spec, otherwise the caller says how far the terms reach
+                known = [r for r in (first.max_range, second.max_range) if r is not None]
+                if first.L + 2 * max([first.L] + known) != im.cells * first.L:
+                    kw = dict(max_range=im.cells * first.L)
             got = bool(first.is_equal(second, **kw))
             if got != l['res']:
                 # classification only: the window is chosen from the max_range of the first operand alone
@@ -405,6 +411,35 @@ def step(ctx, im, marks, l, hist, n, cfg):
         exp = hm.dense_of_sparse(l['U'])
         if not np.array_equal(got, exp):
             viol(ctx, l, 'propagator', hist, n, cfg, first_differences=hm.first_diffs(got, exp))
+            return False
+        return True
+    if op == 'prefactor':
+        got = complex(H.prefactor(int(l['i']), [str(x) for x in l['ops']]))
+        exp = g(l['num']) / float(l['den'])
+        if not close(got, exp):
+            viol(ctx, l, 'prefactor', hist, n, cfg, got=str(got), expected=str(exp))
+            return False
+        return True
+    if op == 'make_U_II_order':
+        Hd = im.dense(l['s'])
+        ph = g(l['ph'])
+        scale = max(1.0, float(np.max(np.sum(np.abs(Hd), axis=1))))
+        errs = []
+        for k in (int(l['k']), int(l['k']) + 1):
+            h = 2.0 ** -k
+            dt = ph * h
+            if dt.imag == 0:
+                dt = float(dt.real)      # real dtype: imaginary-time evolution with either sign
+            Up = hm.dense_from_mpo(H.make_U_II(dt), cells)
+            Um = hm.dense_from_mpo(H.make_U_II(-dt), cells)
+            D1 = (Up - Um) / (2 * dt) - Hd
+            errs.append(float(np.max(np.abs(D1))) if np.all(np.isfinite(D1)) else float('nan'))
+        h0 = 2.0 ** -int(l['k'])
+        ok = all(np.isfinite(e) for e in errs) and errs[0] <= 4.0 * scale ** 3 * h0 ** 2 + 1e-12 \
+            and errs[1] <= 0.5 * errs[0] + 1e-12
+        if not ok:
+            viol(ctx, l, 'propagator-order', hist, n, cfg, errors=errs, bound=4.0 * scale ** 3 * h0 ** 2,
+                 cause='nan' if not all(np.isfinite(e) for e in errs) else 'order')
             return False
         return True
     if op == 'make_U_II':
@@ -493,7 +528,7 @@ def check(ctx):
                'compression methods are checked as relations: |O psi - result|^2 <= reported eps + 1e-8 (no truncation requested)')
     only = ctx.only
     if not only or 'mc' in only:
-        res = run_mc(ctx, 'MPOAlgebra-depth2', 'ConfigsQuick' if quick else 'ConfigsFull', 2, 1 if quick else 0, 4 if quick else 3)
+        res = run_mc(ctx, 'MPOAlgebra-depth2', 'ConfigsQuick' if quick else 'ConfigsFull', 2, 1 if quick else 0, 6 if quick else 3)
         runs = [res]
         if not quick:
             runs.append(run_mc(ctx, 'MPOAlgebra-depth3', 'ConfigsQuick', 3, 1, 4))
@@ -506,7 +541,7 @@ def check(ctx):
         if missing:
             raise core.MachineryError('actions never taken in the MC runs (vacuous): %r' % missing)
     if not only or 'sim' in only:
-        run_sim(ctx, 'ConfigsQuick' if quick else 'ConfigsFull', 160 if quick else 1500, 6)
+        run_sim(ctx, 'ConfigsQuick' if quick else 'ConfigsFull', 120 if quick else 1500, 6)
     if not only or 'canary' in only:
         run_canary(ctx)
     ctx.exhaustive = False
